@@ -46,7 +46,10 @@ pub enum Outcome {
 /// what the real library says
 fn lib_outcome(case: &Case) -> Result<Outcome, String> {
     let provider = HProvider::new(case.provider.clone());
-    let verifier = RpIdVerifier::new(provider).allows_insecure_localhost(case.allow_localhost);
+    let verifier = RpIdVerifier::new(provider);
+    // the switch is a setter: for half of the "off" cases it is first turned on and then off again
+    let toggle = !case.allow_localhost && crate::core::h64(case) % 2 == 0;
+    let verifier = if toggle { verifier.allows_insecure_localhost(true).allows_insecure_localhost(false) } else { verifier.allows_insecure_localhost(case.allow_localhost) };
     let origin: Origin = if let Some(u) = &case.url {
         match Url::parse(u) {
             Ok(u) => u.into(),
@@ -348,7 +351,9 @@ pub fn check_ceremony(ctx: &mut Ctx, psl: &Psl, case: &Case) -> Result<(), Strin
     let store = RefStore::new(Disc::Full);
     let uv = ScriptedUv::new(UvScript::verified());
     let auth = cer::build_authenticator(store.clone(), uv.clone(), &AuthCfg::default());
-    let mut client = Client::new_with_custom_tld_provider(auth, HProvider::new(case.provider.clone())).allows_insecure_localhost(case.allow_localhost);
+    let toggle = !case.allow_localhost && crate::core::h64(case) % 2 == 1;
+    let client = Client::new_with_custom_tld_provider(auth, HProvider::new(case.provider.clone()));
+    let mut client = if toggle { client.allows_insecure_localhost(true).allows_insecure_localhost(false) } else { client.allows_insecure_localhost(case.allow_localhost) };
     let make_origin = || -> Option<Origin<'static>> {
         if let Some(u) = &case.url {
             Url::parse(u).ok().map(Into::into)
@@ -373,6 +378,11 @@ pub fn check_ceremony(ctx: &mut Ctx, psl: &Psl, case: &Case) -> Result<(), Strin
     match res {
         Err(e) => {
             ctx.class("e2e/register-rejected");
+            if spec.is_none() {
+                if let Some(what) = reached(&store, &uv) {
+                    return Err(format!("the statement rejects this pair, yet the authenticator was reached during registration ({what}); the client answered {e:?}; {case:?}"));
+                }
+            }
             if matches!(e, WebauthnError::OriginMissingDomain | WebauthnError::OriginRpMissmatch | WebauthnError::UnprotectedOrigin | WebauthnError::InsecureLocalhostNotAllowed | WebauthnError::InvalidRpId) {
                 if let Some(what) = reached(&store, &uv) {
                     return Err(format!("pair rejected with {e:?} but the authenticator was reached: {what}; {case:?}"));
@@ -426,13 +436,20 @@ pub fn check_ceremony(ctx: &mut Ctx, psl: &Psl, case: &Case) -> Result<(), Strin
     // rejected registration: the same pair must also be rejected for authentication, against a
     // store that holds a credential for whatever RP ID the request names
     let victim_rp = case.rp.clone().unwrap_or_default();
-    let store2 = RefStore::with(Disc::Full, vec![crate::model::util::make_passkey(7, &victim_rp, b"victim-cred-id-0", Some(b"uh"), None, None)]);
+    let host_rp = if let Some(u) = &case.url { Url::parse(u).ok().and_then(|u| u.host_str().map(|s| s.to_string())).unwrap_or_default() } else { case.android_host.clone().unwrap_or_default() };
+    let store2 = RefStore::with(Disc::Full, vec![crate::model::util::make_passkey(7, &victim_rp, b"victim-cred-id-0", Some(b"uh"), None, None), crate::model::util::make_passkey(8, &host_rp, b"victim-cred-id-1", Some(b"uh"), None, None)]);
     let uv2 = ScriptedUv::new(UvScript::verified());
     let auth = cer::build_authenticator(store2.clone(), uv2.clone(), &AuthCfg::default());
     let mut client = Client::new_with_custom_tld_provider(auth, HProvider::new(case.provider.clone())).allows_insecure_localhost(case.allow_localhost);
     let origin = make_origin().unwrap();
     let req = cer::request_options(case.rp.as_deref(), &challenge, None, cer::uv_req(1), None);
     let res = catch_unwind(AssertUnwindSafe(|| block_on(client.authenticate(origin, req, DefaultClientData)))).map_err(|_| format!("authenticate panicked: {}", crate::last_panic()))?;
+    if spec.is_none() {
+        // the statement rejects this pair: whatever the client answers, the authenticator must not have been reached
+        if let Some(what) = reached(&store2, &uv2) {
+            return Err(format!("the statement rejects this pair for authentication, yet the authenticator was reached ({what}); the client answered {:?}; {case:?}", res.as_ref().map(|_| "an assertion").map_err(|e| format!("{e:?}"))));
+        }
+    }
     match res {
         Ok(_) if spec.is_none() => Err(format!("an assertion was produced for a pair the statement rejects: {case:?}")),
         Err(e) if matches!(e, WebauthnError::OriginMissingDomain | WebauthnError::OriginRpMissmatch | WebauthnError::UnprotectedOrigin | WebauthnError::InsecureLocalhostNotAllowed | WebauthnError::InvalidRpId) => match reached(&store2, &uv2) {
